@@ -10,7 +10,7 @@ def check(ctx: Ctx) -> None:
     N.r_name_templates(ctx, "R11.2")
     N.r_instance_state(ctx, "R11.3")
     ctx.rep.rule("R11.4", "the id handed to both callbacks is the task's id (life-cycle typestate, role ID through every hop)")
-    check_lifecycle(ctx, "R11.4", {"end"})
+    check_lifecycle(ctx, "R11.4", {"id"})
     S.r_wiring(ctx, "R11.5", {"ID"}, 4, "task id role")
     ok, why = ctx.llock()
     ctx.rep.ob("L-LOCK", "the group register lock is never held across a suspension (so `async with group_reg` never yields)", ok, detail=why, construct="async with <TaskGroupRegister>")
